@@ -1,6 +1,7 @@
 package main
 
 import (
+	"reflect"
 	"fmt"
 	"strings"
 	"time"
@@ -59,6 +60,8 @@ func keyOfRaw(a keyArgs) (key []byte, err error) {
 		var o *sunmd5.CompatibilityOptions
 		if a.hasOpts {
 			o = &sunmd5.CompatibilityOptions{Prefix: a.prefix, DisableSaltSeparator: a.optNum != 0}
+			before := *o
+			defer func() { noteOpts("sunmd5.CompatibilityOptions", before, *o, a) }()
 		}
 		return sunmd5.Key(a.pw, a.salt, uint32(n(0)), o)
 	case 9:
@@ -69,6 +72,8 @@ func keyOfRaw(a keyArgs) (key []byte, err error) {
 		var o *bcrypt.CompatibilityOptions
 		if a.hasOpts {
 			o = &bcrypt.CompatibilityOptions{Prefix: a.prefix}
+			before := *o
+			defer func() { noteOpts("bcrypt.CompatibilityOptions", before, *o, a) }()
 		}
 		return bcrypt.Key(a.pw, a.salt, uint8(n(0)), o)
 	case 3:
@@ -77,10 +82,23 @@ func keyOfRaw(a keyArgs) (key []byte, err error) {
 		var o *argon2.CompatibilityOptions
 		if a.hasOpts {
 			o = &argon2.CompatibilityOptions{Prefix: a.prefix, Version: int(a.optNum)}
+			before := *o
+			defer func() { noteOpts("argon2.CompatibilityOptions", before, *o, a) }()
 		}
 		return argon2.Key(a.pw, a.salt, uint32(n(0)), uint32(n(1)), uint8(n(2)), o)
 	}
 	return nil, nil
+}
+
+// optsChanged: every Key call of the harness that passes an options struct compares the struct after the call (also
+// when the call panics or fails) with what was passed; C13 reports the differences.
+var optsChanged []map[string]interface{}
+
+func noteOpts(typ string, before, after interface{}, a keyArgs) {
+	if !reflect.DeepEqual(before, after) && len(optsChanged) < 20 {
+		optsChanged = append(optsChanged, map[string]interface{}{"options_type": typ, "passed": fmt.Sprintf("%+v", before), "after_the_call": fmt.Sprintf("%+v", after),
+			"scheme_tag": a.tag, "password_len": len(a.pw), "nums": a.nums})
+	}
 }
 
 // callKey invokes the scheme's Key with a deadline; a call still running after the deadline has passed
@@ -423,6 +441,40 @@ func corrC14(outDir string, seed uint64, tier string, replay string) *report {
 					a.optNum = 0x13
 				}
 				try(a, "password_length")
+			}
+		}
+		// password lengths again with NUL bytes (tail, head, all): a length limit counts bytes, whatever they are
+		for _, l := range []int{1, 8, 9, 10, 16, 72, 73, 255, 256, 257, 300} {
+			for _, shape := range []int{0, 1, 2, 3} {
+				a := base()
+				b := []byte(r.str(l, "abcXYZ123"))
+				switch shape {
+				case 0: // NUL tail from half the length
+					for i := l / 2; i < l; i++ {
+						b[i] = 0
+					}
+				case 1: // only the last byte
+					b[l-1] = 0
+				case 2: // NUL head
+					b[0] = 0
+				case 3:
+					for i := range b {
+						b[i] = 0
+					}
+				}
+				a.pw = b
+				try(a, "password_nul")
+			}
+		}
+		// option numbers congruent to the supported ones modulo 2^8, 2^16, 2^32 (a narrowing conversion in the lookup
+		// must not make them acceptable)
+		if len(s.prefixes) > 0 && s.tag == 4 {
+			for _, v := range []int64{0x10, 0x13} {
+				for _, d := range []int64{256, -256, 65536, 1 << 32, -(1 << 32), 256 * 3} {
+					a := base()
+					a.hasOpts, a.prefix, a.optNum = true, s.prefixes[0], v+d
+					try(a, "options_congruent")
+				}
 			}
 		}
 		// options
